@@ -2,7 +2,7 @@
    Property theorems only: statement, [exact] of the lemma that proves it, Print Assumptions.
    G_* are the functions GENERATED from internal/encoding/*.go by tools/gosyn on every run. *)
 From Coq Require Import List ZArith.
-From Verif Require Import GoSem GenEnc Bytes Varint VarintDec Float.
+From Verif Require Import GoSem GenEnc Bytes Varint VarintDec Float BytesEsc BytesEscProofs.
 Import ListNotations.
 Open Scope Z_scope.
 
@@ -64,6 +64,23 @@ Theorem C17_float64_order_desc : forall a b r s, f64_range a -> f64_range b ->
   = match f64_okey_d a ?= f64_okey_d b with Eq => bcmp r s | c => c end.
 Proof. exact G_float64_desc_order. Qed.
 Print Assumptions C17_float64_order_desc.
+
+(* strings / blobs (escaped byte strings): the encodings compare like the byte strings themselves, the descending
+   encoding reverses the order; the escape constants are taken from the generated file *)
+Theorem C17_bytes_order_asc : forall a b, bytes a -> bytes b -> bcmp (enc_bytes_a a) (enc_bytes_a b) = bcmp a b.
+Proof. exact enc_bytes_a_order. Qed.
+Print Assumptions C17_bytes_order_asc.
+
+Theorem C17_bytes_order_desc : forall a b, bytes a -> bytes b -> a <> b ->
+  bcmp (enc_bytes_d a) (enc_bytes_d b) = CompOpp (bcmp a b).
+Proof. exact enc_bytes_d_order. Qed.
+Print Assumptions C17_bytes_order_desc.
+
+(* no encoding of a byte string is a proper prefix of another one (needed for composite keys: the next field starts
+   where the string ends) *)
+Theorem C17_bytes_prefix_free : forall a b p, bytes a -> bytes b -> body_t a = body_t b ++ p -> a = b.
+Proof. exact body_prefix_free. Qed.
+Print Assumptions C17_bytes_prefix_free.
 
 (* non-vacuity: the premises hold for extreme values and the statements compute on them *)
 Example C17_nonvacuous :
